@@ -8,6 +8,9 @@ import MsmVerif.Model.Events
 import MsmVerif.Model.Mcmc
 import MsmVerif.Model.Compare
 import MsmVerif.Model.Relabel
+import MsmVerif.Model.Linalg
+import MsmVerif.Model.Timescales
+import MsmVerif.Model.Filter
 
 open Lean
 
@@ -280,6 +283,168 @@ def opTmatPublic (j : Json) : Except String Json := do
     return Json.mkObj [("model", Json.mkObj [("ok", ofNats model)]), ("cum_ok", Json.bool okCum),
       ("holds", Json.bool (stoch && okCum && chainObs == model))]
 
+def ofBools (l : List Bool) : Json := Json.arr (l.map Json.bool).toArray
+def bools? (j : Json) : Except String (List Bool) := do (← arr? j).mapM bool?
+
+/-- smallest distance (as a ratio) of a positive entry of the Wielandt power from the 1e-8 threshold -/
+def nearThreshold (m : Linalg.Mat) : Bool :=
+  if !Linalg.isTmat m then false else
+  let p := Linalg.powFast m (Linalg.wielandtExp m.length)
+  p.any (fun r => r.any (fun x => decide (Linalg.atol / 10 < x) && decide (x < Linalg.atol * 10)))
+
+/-- C14: `is_transition_matrix`, `is_ergodic`, `is_fuzzy_ergodic`, `ergodic_mask` on a matrix given as exact rationals -/
+def opTests (j : Json) : Except String Json := do
+  let m ← ratMat? (← field j "M")
+  let tm := Linalg.isTmat m
+  let erg := Linalg.isErgodic m
+  let fz := Linalg.isFuzzyErgodic m
+  let mask := Linalg.ergodicMask m
+  let near := nearThreshold m
+  let gErg := Linalg.graphErgodic m
+  let mh := if tm then Linalg.maskHypothesis m else none
+  let model := Json.mkObj [("is_tmat", Json.bool tm), ("is_ergodic", Json.bool erg), ("is_fuzzy", Json.bool fz),
+    ("mask", match mask with | some b => ofBools b | none => Json.str "ValueError")]
+  let base := [("model", Json.mkObj [("ok", model)]), ("near_threshold", Json.bool near), ("graph_ergodic", Json.bool gErg),
+    ("mask_expected", match mh with | some b => ofBools b | none => Json.null)]
+  match j.getObjVal? "obs" with
+  | .ok o =>
+    let oo ← field o "ok"
+    let oTm ← bool? (← field oo "is_tmat")
+    let oErg ← bool? (← field oo "is_ergodic")
+    let oFz ← bool? (← field oo "is_fuzzy")
+    let oMaskJ ← field oo "mask"
+    let oMask : Option (List Bool) := match bools? oMaskJ with | .ok b => some b | .error _ => none
+    -- the property, clause by clause
+    let c1 := oErg == gErg                                   -- ergodic ⇔ stochastic ∧ strongly connected ∧ aperiodic
+    let c2 := match mh with                                   -- mask = largest closed class(es) under the hypothesis
+      | some e => oMask == some e
+      | none => true
+    let c3 := (!oErg || oFz)                                  -- ergodic ⇒ fuzzy ergodic
+    let c4 := tm || (!oErg && !oFz && oMask.isNone)           -- non-stochastic ⇒ neither (and the mask refuses)
+    let c5 := oTm == tm
+    return Json.mkObj (base ++ [("holds", Json.bool (near || (c1 && c2 && c3 && c4 && c5))),
+      ("clauses", ofBools [c1, c2, c3, c4, c5])])
+  | .error _ => return Json.mkObj base
+
+/-- C04: `equilibrium_population` -/
+def opPeq (j : Json) : Except String Json := do
+  let m ← ratMat? (← field j "M")
+  let allow ← bool? (← field j "allow")
+  let near := nearThreshold m
+  let model := Linalg.equilibrium m allow
+  let mj := match model with
+    | .ok (some v) => Json.mkObj [("ok", ofRats v)]
+    | .ok none => Json.mkObj [("ok", Json.null)]
+    | .error e => Json.mkObj [("err", Json.str e.name)]
+  let base := [("model", mj), ("near_threshold", Json.bool near),
+    ("unique_closed", Json.bool (Linalg.uniqueLargestClosed m).isSome)]
+  match j.getObjVal? "obs" with
+  | .ok o =>
+    let obs ← except? rats? o
+    return Json.mkObj (base ++ [("holds", Json.bool (near || Linalg.holdsPeq m allow obs))])
+  | .error _ => return Json.mkObj base
+
+/-- macro index assignment of `LumpedStateTraj`: macro label at the first occurrence of each microstate -/
+def assignment (micro macroT : Trajs) : List Int × List Int × List Nat :=
+  let mic := micro.flatten
+  let mac := macroT.flatten
+  let ms := sortDedup mic
+  let As := sortDedup mac
+  let lab := ms.map (fun s => mac.getD (mic.idxOf s) 0)
+  (ms, As, lab.map (fun l => rank As l))
+
+/-- C03: `LumpedStateTraj(macro, micro, positive).estimate_markov_model(lag)` -/
+def opHs (j : Json) : Except String Json := do
+  let micro ← trajs? (← field j "micro")
+  let macroT ← trajs? (← field j "macro")
+  let lag ← nat? (← field j "lag")
+  let positive ← bool? (← field j "positive")
+  match Msm.estimate micro lag with
+  | .error e => return Json.mkObj [("model", Json.mkObj [("err", Json.str e.name)]), ("holds", Json.bool false)]
+  | .ok (_, T, _) =>
+    let (_, As, assign) := assignment micro macroT
+    let erg := Linalg.isErgodic T
+    let near := nearThreshold T
+    let model : Except Err (Option Linalg.Mat) :=
+      if !erg then .error .type else .ok (Linalg.hsProject T assign As.length positive)
+    let raw := Linalg.hsProject T assign As.length false
+    let mj := match model with
+      | .ok (some R) => Json.mkObj [("ok", Json.mkObj [("T", ofRatMat R), ("states", ofInts As)])]
+      | .ok none => Json.mkObj [("ok", Json.null)]
+      | .error e => Json.mkObj [("err", Json.str e.name)]
+    let base := [("model", mj), ("near_threshold", Json.bool near)]
+    match j.getObjVal? "obs" with
+    | .ok o =>
+      let obs ← except? (fun v => do return (← ratMat? (← field v "T"), ← ints? (← field v "states"))) o
+      let tol : Rat := (1 : Rat) / 100000000
+      let h := match model, obs with
+        | .error e, .error e' => e == e'
+        | .ok (some R), .ok (oT, oS) =>
+          oS == As && oT.length == R.length &&
+          (List.zip oT R).all (fun (a, b) => a.length == b.length &&
+            (List.zip a b).all (fun (x, y) => decide (Linalg.absQ (x - y) ≤ tol))) &&
+          oT.all (fun r => decide (Linalg.absQ (r.sum - 1) ≤ tol)) &&
+          (!positive || oT.all (fun r => r.all (fun x => decide (0 ≤ x)))) &&
+          -- stationarity of the per-macrostate sums of the micro equilibrium (un-clipped projection only)
+          (positive || (match Linalg.stationary T with
+            | some pi =>
+              let piA := (List.range As.length).map (fun a =>
+                ((List.zip pi assign).filterMap (fun (p, s) => if s = a then some p else none)).sum)
+              (List.zip (Linalg.vecMat piA oT) piA).all (fun (x, y) => decide (Linalg.absQ (x - y) ≤ tol))
+            | none => false)) &&
+          -- singleton lumping: the microstate model itself (rows/columns permuted consistently)
+          (As.length != T.length || (match raw with
+            | some _ =>
+              (List.range T.length).all (fun i => (List.range T.length).all (fun k =>
+                decide (Linalg.absQ (Linalg.entry oT (assign.getD i 0) (assign.getD k 0) - Linalg.entry T i k) ≤ tol)))
+            | none => true))
+        | .ok none, _ => true
+        | _, _ => false
+      return Json.mkObj (base ++ [("holds", Json.bool (near || h))])
+    | .error _ => return Json.mkObj base
+
+/-- C10: requirement / code classification per eigenvalue and the entry oracle -/
+def opIts (j : Json) : Except String Json := do
+  let rows ← arr? (← field j "rows")
+  let mut allOk := true
+  let mut kinds : List Json := []
+  for row in rows do
+    let evs ← arr? (← field row "eigs")
+    let obs ← arr? (← field row "obs")
+    let refs ← arr? (← field row "refs")
+    let mut ks : List Json := []
+    for (e, (o, r)) in evs.zip (obs.zip refs) do
+      let re ← rat? (← field e "re")
+      let im ← rat? (← field e "im")
+      let ov : Option Rat ← (if o.isNull then pure none else do return some (← rat? o))
+      let rv : Option Rat ← (if r.isNull then pure none else do return some (← rat? r))
+      let req := Timescales.required re im
+      let code := Timescales.codeKind re im
+      let ok := Timescales.entryOk req ov rv
+      if !ok then allOk := false
+      ks := ks ++ [Json.mkObj [("required", Json.str (reprStr req)), ("code", Json.str (reprStr code)), ("ok", Json.bool ok)]]
+    if obs.length != evs.length then allOk := false
+    kinds := kinds ++ [Json.arr ks.toArray]
+  return Json.mkObj [("model", Json.mkObj [("ok", Json.arr kinds.toArray)]), ("holds", Json.bool allOk)]
+
+/-- C20: Gaussian filter with given weights / running mean, exact -/
+def opFilter (j : Json) : Except String Json := do
+  let kind ← str? (← field j "kind")
+  let x ← ratMat? (← field j "x")
+  let obs ← ratMat? (← field j "obs")
+  let tol ← rat? (← field j "tol")
+  if kind == "gauss" then
+    let w ← rats? (← field j "w")
+    let model := Filter.filtTable w x
+    return Json.mkObj [("model", Json.mkObj [("ok", ofRatMat model)]), ("holds", Json.bool (Filter.close tol model obs))]
+  else
+    let w ← nat? (← field j "window")
+    let col := Filter.column x 0
+    let model := (Filter.runningMean col w).map (fun v => [v])
+    let doc := (Filter.runningMeanDoc col w).map (fun v => [v])
+    return Json.mkObj [("model", Json.mkObj [("ok", ofRatMat model)]),
+      ("holds", Json.bool (Filter.close tol doc obs && (w != 1 || Filter.close tol x obs)))]
+
 def dispatch (j : Json) : Except String Json := do
   let op ← str? (← field j "op")
   match op with
@@ -299,6 +464,11 @@ def dispatch (j : Json) : Except String Json := do
   | "shift" => opShift j
   | "rename" => opRename j
   | "unique" => opUnique j
+  | "tests" => opTests j
+  | "peq" => opPeq j
+  | "hs" => opHs j
+  | "its" => opIts j
+  | "filter" => opFilter j
   | _ => throw s!"unknown op {op}"
 
 end MsmVerif.Driver
